@@ -52,6 +52,8 @@ CONSTANTS
   Code_FirstMessageResent,          \* without DESTROY hooks the second release message is the first one again
   Code_ClaimNotAtomic,              \* reuse: a task is claimed long before it is locked; until then nothing excludes a
                                     \* second claim or a Cleanup that kills it
+  Code_AllClaimedCrashes,           \* reuse: acquireTasks unlocks deployMu although it did not lock it when every
+                                    \* descriptor was satisfied by a claimed task: fatal error, the core process dies
   Code_RetryForgetsLaunched,        \* deployment retry drops the tasks launched by the failed attempt
   Code_InactiveDroppedUnkilled      \* doKillTasks drops tasks whose status is not ACTIVE without a KILL
 
@@ -104,13 +106,16 @@ VARIABLES
   msg2,      \* [Envs -> tasks of the second release message]
   relerr,    \* [Envs -> a release was refused]
   dforced,   \* [Envs -> destroy decided to force (state not allowed / transition failed / plain teardown refused)]
+  dplan,     \* [Envs -> transition DestroyEnvironment decided to try first: None | "STOP_ACTIVITY" | "RESET"]
   dkeepEff,  \* [Envs -> keepTasks as passed to doTeardownAndCleanup (dropped when the state forces the teardown)]
   ktargets,  \* [Envs -> task ids captured for KillTasks by the create failure tail]
   (* kill batches *)
   kq,        \* [Killers -> tasks selected by that Cleanup()/KillTasks() call whose KILL was not sent yet]
   ksent,     \* [Killers -> tasks that call sent a KILL for]
-  ksel,      \* [Killers -> tasks the call filtered out of the roster and has not handled yet]
-  kst,       \* [Killers -> "idle" | "run" (the roster was filtered)]
+  ksel,      \* [Killers -> tasks the call found when it filtered the roster, not yet looked at]
+  kpre,      \* [Killers -> tasks looked at, still in the roster]
+  kact,      \* [Killers -> those of them whose status was ACTIVE]
+  kst,       \* [Killers -> "idle" | "run" (the roster was filtered) | "removed" (doKillTasks took them out of the roster)]
   (* tasks *)
   tenv,      \* [TaskIds -> environment the task was launched for | None (not launched)]
   trole,     \* [TaskIds -> role]
@@ -125,6 +130,7 @@ VARIABLES
   lastOwner, \* [TaskIds -> the last environment that owned the task | None]
   killedOwned, \* a KILL was sent for an owned task
   cmdForeign,  \* a transition of e commanded a task not owned by e
+  crashed,     \* the core process died
   conflictIn,  \* an environment was registered while one of its detectors was held
   hooksEarly,  \* DESTROY hooks ran while a non-hook task of the environment was still owned
   cret,      \* [Envs -> reply of create: "none" | "ok" | "err"]
@@ -133,26 +139,26 @@ VARIABLES
   ncalls
 
 cvars == <<cpc, wf, script, dets, snap, cret, ktargets>>
-dvars == <<dpc, dfl, dret, dkeep, dforced, dkeepEff>>
+dvars == <<dpc, dfl, dret, dkeep, dforced, dkeepEff, dplan>>
 xvars == <<xpc, xop>>
 evars == <<listed, est, elock, pend>>
 avars == <<apc, att, cur, claimed, roleTask>>
 tdvars == <<tdp, tdwho, tdforce, relq, msg2, relerr>>
-tvars == <<tenv, trole, owner, inRoster, running, standby, alive, triggered, killSent, kq, ksent, ksel, kst, ksel, kst>>
-hvars == <<lastOwner, killedOwned, cmdForeign, conflictIn, hooksEarly>>
+tvars == <<tenv, trole, owner, inRoster, running, standby, alive, triggered, killSent, kq, ksent, ksel, kpre, kact, kst>>
+hvars == <<lastOwner, killedOwned, cmdForeign, conflictIn, hooksEarly, crashed>>
 vars == <<cvars, dvars, xvars, kpc, evars, avars, tdvars, tvars, hvars, ncalls>>
 
 (* ------------------------------------------------------------------------ *)
 Killers == {<<"api", "api">>} \cup {<<e, k>> : e \in Envs, k \in {"c", "ck", "d"}}
 AllKq == UNION {kq[k] : k \in Killers}
-AllKsel == UNION {ksel[k] : k \in Killers}
+AllKsel == UNION {ksel[k] \cup kpre[k] : k \in Killers}
 InFlight == Cardinality({e \in Envs : cpc[e] \notin {"none", "ret"}}) + Cardinality({e \in Envs : dpc[e] # "idle"})
             + Cardinality({e \in Envs : xpc[e] # "idle"}) + (IF kpc = "idle" THEN 0 ELSE 1)
 MayCall == ncalls < MaxCalls /\ InFlight < MaxInFlight
-KDone(k) == kst[k] = "run" /\ ksel[k] = {} /\ kq[k] = {}
+KDone(k) == kst[k] = "removed" /\ kq[k] = {}
 KAcked(k) == \A t \in ksent[k] : ~alive[t]        \* KillTasks: SafeAcks, one ack per KILL sent by the call
 KReset(k) == /\ kst' = [kst EXCEPT ![k] = "idle"] /\ ksent' = [ksent EXCEPT ![k] = {}]
-             /\ UNCHANGED <<kq, ksel>>
+             /\ UNCHANGED <<kq, ksel, kpre, kact>>
 tvarsNoK == <<tenv, trole, owner, inRoster, running, standby, alive, triggered, killSent>>
 NoWf == [basic |-> {}, hooks |-> {}, pend |-> FALSE]
 NoRoles == [r \in TaskRoleNames |-> None]
@@ -230,14 +236,15 @@ Init ==
   /\ roleTask = [e \in Envs |-> NoRoles]
   /\ tdp = [e \in Envs |-> "idle"] /\ tdwho = [e \in Envs |-> None] /\ tdforce = [e \in Envs |-> FALSE]
   /\ relq = [e \in Envs |-> {}] /\ msg2 = [e \in Envs |-> {}] /\ relerr = [e \in Envs |-> FALSE]
-  /\ dforced = [e \in Envs |-> FALSE] /\ dkeepEff = [e \in Envs |-> FALSE] /\ ktargets = [e \in Envs |-> {}]
+  /\ dforced = [e \in Envs |-> FALSE] /\ dkeepEff = [e \in Envs |-> FALSE] /\ dplan = [e \in Envs |-> None] /\ ktargets = [e \in Envs |-> {}]
   /\ kq = [k \in Killers |-> {}] /\ ksent = [k \in Killers |-> {}] /\ ksel = [k \in Killers |-> {}]
+  /\ kpre = [k \in Killers |-> {}] /\ kact = [k \in Killers |-> {}]
   /\ kst = [k \in Killers |-> "idle"]
   /\ tenv = [t \in TaskIds |-> None] /\ trole = [t \in TaskIds |-> None] /\ owner = [t \in TaskIds |-> None]
   /\ inRoster = [t \in TaskIds |-> FALSE] /\ running = [t \in TaskIds |-> FALSE] /\ standby = [t \in TaskIds |-> TRUE]
   /\ alive = [t \in TaskIds |-> FALSE] /\ triggered = [t \in TaskIds |-> FALSE] /\ killSent = [t \in TaskIds |-> FALSE]
   /\ lastOwner = [t \in TaskIds |-> None] /\ killedOwned = FALSE /\ cmdForeign = FALSE
-  /\ conflictIn = FALSE /\ hooksEarly = FALSE
+  /\ conflictIn = FALSE /\ hooksEarly = FALSE /\ crashed = FALSE
   /\ cret = [e \in Envs |-> "none"] /\ dret = [e \in Envs |-> "none"] /\ dkeep = [e \in Envs |-> FALSE]
   /\ ncalls = 0
 
@@ -276,7 +283,7 @@ CRegister(e) ==
   /\ listed' = listed \cup {e}
   /\ conflictIn' = (conflictIn \/ dets[e] \cap ActiveDets # {})
   /\ UNCHANGED <<wf, script, dets, snap, cret, ktargets, dvars, xvars, kpc, est, elock, pend, avars, tdvars, tvarsNoK,
-                 lastOwner, killedOwned, cmdForeign, hooksEarly, ncalls>>
+                 lastOwner, killedOwned, cmdForeign, hooksEarly, crashed, ncalls>>
 
 \* [Hook env.lock.acquired DEPLOY] TryTransition(DEPLOY): the AcquireTasks message goes to the task manager
 CDeployLock(e) ==
@@ -295,7 +302,8 @@ RolesLaunchedNow(e) == {trole[t] : t \in cur[e]}
 FailRole(e) == IF "b" \in wf[e].basic THEN "b" ELSE "a"
 Launchable(e) ==
   CASE script[e] = "undeployable" -> {}
-    [] script[e] = "partial" -> RolesToRun(e) \ {FailRole(e)}
+    \* the role that does not fit takes the other roles bound to the same host with it
+    [] script[e] = "partial" -> {r \in RolesToRun(e) : HostOf(r) # HostOf(FailRole(e))}
     [] OTHER -> RolesToRun(e)
 
 \* [Hook task.acquire.claim] reuse: an unlocked ACTIVE STANDBY task of the same class on a suitable host
@@ -320,7 +328,7 @@ LaunchSet(e, M) ==
         /\ alive' = [t \in TaskIds |-> IF t \in ts THEN TRUE ELSE alive[t]]
         /\ cur' = [cur EXCEPT ![e] = @ \cup ts]
   /\ UNCHANGED <<cvars, dvars, xvars, kpc, evars, apc, att, claimed, roleTask, tdvars, owner, inRoster, running, standby,
-                 triggered, killSent, kq, ksent, ksel, kst, hvars, ncalls>>
+                 triggered, killSent, kq, ksent, ksel, kpre, kact, kst, hvars, ncalls>>
 
 RoundComplete(e) == RolesLaunchedNow(e) = RolesToRun(e)
 
@@ -338,7 +346,7 @@ AcqRetry(e) ==
                       /\ inRoster' = [t \in TaskIds |-> inRoster[t] \/ t \in cur[e]]
        ELSE /\ apc' = [apc EXCEPT ![e] = "failing"] /\ UNCHANGED <<att, cur, inRoster>>
   /\ UNCHANGED <<cvars, dvars, xvars, kpc, evars, claimed, roleTask, tdvars, tenv, trole, owner, running, standby, alive,
-                 triggered, killSent, kq, ksent, ksel, kst, hvars, ncalls>>
+                 triggered, killSent, kq, ksent, ksel, kpre, kact, kst, hvars, ncalls>>
 
 \* [Hook task.lock] the round deployed everything: SetParent(role)
 Lock(e, t) ==
@@ -349,7 +357,7 @@ Lock(e, t) ==
   /\ lastOwner' = [lastOwner EXCEPT ![t] = e]
   /\ roleTask' = [roleTask EXCEPT ![e][trole[t]] = t]
   /\ UNCHANGED <<cvars, dvars, xvars, kpc, evars, att, cur, claimed, tdvars, tenv, trole, inRoster, running, standby, alive,
-                 triggered, killSent, kq, ksent, ksel, kst, killedOwned, cmdForeign, conflictIn, hooksEarly, ncalls>>
+                 triggered, killSent, kq, ksent, ksel, kpre, kact, kst, killedOwned, cmdForeign, conflictIn, hooksEarly, crashed, ncalls>>
 
 \* [Hook task.unlock why=deployment failed] last attempt failed: SetParent(nil)
 FailUnlock(e, t) ==
@@ -361,12 +369,19 @@ RosterAppend(e, t) ==
   /\ apc[e] \in {"locking", "failing"} /\ t \in cur[e] /\ ~inRoster[t]
   /\ apc[e] = "locking" => \A u \in cur[e] : owner[u] = e
   /\ inRoster' = [inRoster EXCEPT ![t] = TRUE]
-  /\ UNCHANGED <<cvars, dvars, xvars, kpc, evars, avars, tdvars, tenv, trole, owner, running, standby, alive, triggered, killSent, kq, ksent, ksel, kst,
+  /\ UNCHANGED <<cvars, dvars, xvars, kpc, evars, avars, tdvars, tenv, trole, owner, running, standby, alive, triggered, killSent, kq, ksent, ksel, kpre, kact, kst,
                  hvars, ncalls>>
+
+AllClaimed(e) == ReuseUnlocked /\ claimed[e] # {} /\ RolesToRun(e) = {} /\ apc[e] = "acq"
+\* [the process exits: fatal error: sync: unlock of unlocked mutex]
+AcqCrash(e) ==
+  /\ Code_AllClaimedCrashes /\ AllClaimed(e)
+  /\ crashed' = TRUE
+  /\ UNCHANGED <<cvars, dvars, xvars, kpc, evars, avars, tdvars, tvars, lastOwner, killedOwned, cmdForeign, conflictIn, hooksEarly, ncalls>>
 
 \* [Hook task.lock reused] a claimed task is locked at the very end of acquireTasks
 LockReused(e, t) ==
-  /\ apc[e] \in {"acq", "locking"} /\ RoundComplete(e)
+  /\ apc[e] \in {"acq", "locking"} /\ RoundComplete(e) /\ ~(Code_AllClaimedCrashes /\ AllClaimed(e))
   /\ \A u \in cur[e] : inRoster[u] /\ owner[u] = e
   /\ t \in claimed[e]
   /\ apc' = [apc EXCEPT ![e] = "locking"]
@@ -375,7 +390,7 @@ LockReused(e, t) ==
   /\ lastOwner' = [lastOwner EXCEPT ![t] = e]
   /\ roleTask' = [roleTask EXCEPT ![e][trole[t]] = t]
   /\ UNCHANGED <<cvars, dvars, xvars, kpc, evars, att, cur, tdvars, tenv, trole, inRoster, running, standby, alive,
-                 triggered, killSent, kq, ksent, ksel, kst, killedOwned, cmdForeign, conflictIn, hooksEarly, ncalls>>
+                 triggered, killSent, kq, ksent, ksel, kpre, kact, kst, killedOwned, cmdForeign, conflictIn, hooksEarly, crashed, ncalls>>
 
 AcqSettled(e) ==
   \/ apc[e] \in {"done", "failed"}
@@ -384,27 +399,31 @@ AcqSettled(e) ==
   \/ apc[e] = "acq" /\ RolesToRun(e) = {} /\ claimed[e] = {}
 AcqOk(e) == apc[e] \in {"done", "locking"} \/ (apc[e] = "acq" /\ RolesToRun(e) = {} /\ claimed[e] = {})
 
-\* [MUpdate TASK_RUNNING] the (simulated) agent reports a task only after it is in the roster
+\* [MUpdate TASK_RUNNING] (a report that arrives before the task is in the roster is lost for the core: the
+\* simulated agents wait for the roster, as real executors take far longer to start)
 TaskRunning(t) ==
-  /\ tenv[t] # None /\ alive[t] /\ ~running[t] /\ inRoster[t]
+  /\ tenv[t] # None /\ alive[t] /\ ~running[t]
   /\ ~(script[tenv[t]] \in {"silentlaunch", "launchfail"} /\ trole[t] = FailRole(tenv[t]))
   /\ running' = [running EXCEPT ![t] = TRUE]
-  /\ UNCHANGED <<cvars, dvars, xvars, kpc, evars, avars, tdvars, tenv, trole, owner, inRoster, standby, alive, triggered, killSent, kq, ksent, ksel, kst,
+  /\ UNCHANGED <<cvars, dvars, xvars, kpc, evars, avars, tdvars, tenv, trole, owner, inRoster, standby, alive, triggered, killSent, kq, ksent, ksel, kpre, kact, kst,
                  hvars, ncalls>>
 
 \* [Hook env.lock.release DEPLOY] the DEPLOY transition ends: every role ACTIVE -> DEPLOYED, else failure
 \* (UNDEPLOYABLE, task ERROR, deploy_timeout; assumption: deploy_timeout outlasts the acquisition attempts)
 CDeployEnd(e, ok) ==
-  /\ cpc[e] = "deploying" /\ elock[e] = "c" /\ AcqSettled(e)
+  \* (UNDEPLOYABLE reaches the transition before acquireTasks has put the tasks of its last attempt in the roster)
+  /\ cpc[e] = "deploying" /\ elock[e] = "c" /\ (AcqSettled(e) \/ (~ok /\ apc[e] = "failing"))
   /\ ok => /\ est[e] = "STANDBY" /\ AcqOk(e)
            /\ \A r \in TaskRolesOf(e) : roleTask[e][r] # None /\ running[roleTask[e][r]] /\ alive[roleTask[e][r]]
   /\ ~ok => \/ est[e] # "STANDBY" \/ ~AcqOk(e)
             \/ \E r \in TaskRolesOf(e) : roleTask[e][r] # None /\ ~alive[roleTask[e][r]]     \* task ERROR
             \/ script[e] = "silentlaunch"                                                  \* deploy_timeout
+            \/ \E r \in TaskRolesOf(e) : roleTask[e][r] # None /\ tenv[roleTask[e][r]] # e   \* a reused task does not
+                                                       \* report ACTIVE to its new role: deploy_timeout
   /\ cpc' = [cpc EXCEPT ![e] = IF ok THEN "deployed" ELSE "tail"]
   /\ est' = IF ok THEN [est EXCEPT ![e] = "DEPLOYED"] ELSE est
   /\ elock' = [elock EXCEPT ![e] = "free"]
-  /\ apc' = [apc EXCEPT ![e] = IF AcqOk(e) THEN "done" ELSE "failed"]
+  /\ apc' = [apc EXCEPT ![e] = IF ~AcqSettled(e) THEN @ ELSE IF AcqOk(e) THEN "done" ELSE "failed"]
   /\ UNCHANGED <<wf, script, dets, snap, cret, ktargets, dvars, xvars, kpc, listed, pend, att, cur, claimed, roleTask, tdvars, tvars, hvars, ncalls>>
 
 \* [Hook env.lock.release CONFIGURE]
@@ -413,12 +432,19 @@ CConfigure(e, ok) ==
   /\ DoTransition(e, "CONFIGURE", ok)
   /\ cpc' = [cpc EXCEPT ![e] = IF ok THEN "ok" ELSE "tail"]
   /\ UNCHANGED <<wf, script, dets, snap, cret, ktargets, dvars, xvars, kpc, listed, elock, avars, tdvars, tenv, trole, owner, inRoster,
-                 running, alive, triggered, killSent, kq, ksent, ksel, kst, lastOwner, killedOwned, conflictIn, hooksEarly, ncalls>>
+                 running, alive, triggered, killSent, kq, ksent, ksel, kpre, kact, kst, lastOwner, killedOwned, conflictIn, hooksEarly, crashed, ncalls>>
 
 \* [ApiReply create OK]
 CReplyOk(e) ==
-  /\ cpc[e] = "ok"
+  /\ cpc[e] = "ok"     \* (the lookup of the new environment may have preceded a concurrent teardown)
   /\ cpc' = [cpc EXCEPT ![e] = "ret"] /\ cret' = [cret EXCEPT ![e] = "ok"]
+  /\ UNCHANGED <<wf, script, dets, snap, ktargets, dvars, xvars, kpc, evars, avars, tdvars, tvars, hvars, ncalls>>
+
+\* [ApiReply create error] CreateEnvironment succeeded but NewEnvironment does not find the environment any more
+\* (it was destroyed in the meantime): "cannot get newly created environment"
+CReplyGone(e) ==
+  /\ cpc[e] = "ok" /\ e \notin listed
+  /\ cpc' = [cpc EXCEPT ![e] = "ret"] /\ cret' = [cret EXCEPT ![e] = "err"]
   /\ UNCHANGED <<wf, script, dets, snap, ktargets, dvars, xvars, kpc, evars, avars, tdvars, tvars, hvars, ncalls>>
 
 \* [Hook env.lock.release GO_ERROR] failure tail: GO_ERROR, then envTasks := Workflow().GetTasks()
@@ -428,7 +454,7 @@ CTailGoError(e, ok) ==
   /\ cpc' = [cpc EXCEPT ![e] = "tail_td"]
   /\ ktargets' = [ktargets EXCEPT ![e] = EnvTasks(e)]
   /\ UNCHANGED <<wf, script, dets, snap, cret, dvars, xvars, kpc, listed, elock, avars, tdvars, tenv, trole, owner, inRoster,
-                 running, alive, triggered, killSent, kq, ksent, ksel, kst, lastOwner, killedOwned, conflictIn, hooksEarly, ncalls>>
+                 running, alive, triggered, killSent, kq, ksent, ksel, kpre, kact, kst, lastOwner, killedOwned, conflictIn, hooksEarly, crashed, ncalls>>
 
 \* the forced teardown of the tail runs as tdwho = "c" (actions Td* below); when it is over, or the
 \* environment is not found any more, KillTasks(envTasks) selects its victims (KillSelect, killer <<"ck", e>>)
@@ -471,7 +497,7 @@ TdFailed(e) ==
 TdRefuse(e) ==
   /\ tdp[e] = "locked" /\ ~TdAllowed(e)
   /\ TdFailed(e)
-  /\ UNCHANGED <<wf, script, dets, snap, cret, ktargets, dfl, dret, dkeep, dkeepEff, xvars, kpc, listed, est, pend, avars, tdwho, tdforce, relq, msg2,
+  /\ UNCHANGED <<wf, script, dets, snap, cret, ktargets, dfl, dret, dkeep, dkeepEff, dplan, xvars, kpc, listed, est, pend, avars, tdwho, tdforce, relq, msg2,
                  relerr, tvars, hvars, ncalls>>
 
 \* [Hook env.teardown.phase left] leave_<state> hooks done, run-end stamps; the first release message
@@ -489,7 +515,7 @@ Unlock(e, t) ==
   /\ owner' = [owner EXCEPT ![t] = None]
   /\ relq' = [relq EXCEPT ![e] = @ \ {t}]
   /\ UNCHANGED <<cvars, dvars, xvars, kpc, evars, avars, tdp, tdwho, tdforce, msg2, relerr, tenv, trole, inRoster, running, standby,
-                 alive, triggered, killSent, kq, ksent, ksel, kst, hvars, ncalls>>
+                 alive, triggered, killSent, kq, ksent, ksel, kpre, kact, kst, hvars, ncalls>>
 
 \* [Hook env.teardown.phase released1] the TasksReleasedEvent came back; what is left in relq was refused
 TdReleased1(e) ==
@@ -503,7 +529,7 @@ TdReleased1(e) ==
 TdRelError(e) ==
   /\ tdp[e] \in {"released1", "released2"} /\ relerr[e]
   /\ TdFailed(e)
-  /\ UNCHANGED <<wf, script, dets, snap, cret, ktargets, dfl, dret, dkeep, dkeepEff, xvars, kpc, listed, est, pend, avars, tdwho, tdforce, relq, msg2,
+  /\ UNCHANGED <<wf, script, dets, snap, cret, ktargets, dfl, dret, dkeep, dkeepEff, dplan, xvars, kpc, listed, est, pend, avars, tdwho, tdforce, relq, msg2,
                  relerr, tvars, hvars, ncalls>>
 
 \* [Hook env.teardown.phase destroyhooks] per weight: call hooks, then TriggerHooks on the hook tasks whose
@@ -511,15 +537,15 @@ TdRelError(e) ==
 TdHooks(e, T) ==
   /\ tdp[e] = "released1" /\ ~relerr[e]
   /\ LET ht == TasksOfRoles(e, HookTaskRoles(e)) IN
+       \* (the core may not have processed the TASK_RUNNING of a hook task yet, or may know it dead)
        /\ T \subseteq ht
-       /\ \A t \in ht : (running[t] /\ alive[t]) => t \in T
        /\ \A t \in T : running[t]
   /\ triggered' = [t \in TaskIds |-> triggered[t] \/ t \in T]
   /\ msg2' = [msg2 EXCEPT ![e] = Msg2(e, T)]
   /\ hooksEarly' = (hooksEarly \/ (Recognised(wf[e].hooks) # {} /\ \E t \in Msg1(e) : owner[t] = e))
   /\ tdp' = [tdp EXCEPT ![e] = "hooksdone"]
   /\ UNCHANGED <<cvars, dvars, xvars, kpc, evars, avars, tdwho, tdforce, relq, relerr, tenv, trole, owner, inRoster, running, standby,
-                 alive, killSent, kq, ksent, ksel, kst, lastOwner, killedOwned, cmdForeign, conflictIn, ncalls>>
+                 alive, killSent, kq, ksent, ksel, kpre, kact, kst, lastOwner, killedOwned, cmdForeign, conflictIn, crashed, ncalls>>
 
 \* [Hook env.teardown.phase cancelled] cancelCallsPendingAwait; the second message goes out
 TdCancel(e) ==
@@ -553,7 +579,7 @@ TdDelete(e) ==
   /\ IF tdwho[e] = "c"
        THEN cpc' = [cpc EXCEPT ![e] = "tail_kill"] /\ UNCHANGED dpc
        ELSE dpc' = [dpc EXCEPT ![e] = IF dkeepEff[e] THEN "okreply" ELSE "kill"] /\ UNCHANGED cpc
-  /\ UNCHANGED <<wf, script, dets, snap, cret, ktargets, dfl, dret, dkeep, dforced, dkeepEff, xvars, kpc, est, pend, avars, tdwho, tdforce, relq, msg2,
+  /\ UNCHANGED <<wf, script, dets, snap, cret, ktargets, dfl, dret, dkeep, dforced, dkeepEff, dplan, xvars, kpc, est, pend, avars, tdwho, tdforce, relq, msg2,
                  relerr, tvars, hvars, ncalls>>
 
 (* ===================== DestroyEnvironment / doTeardownAndCleanup ========= *)
@@ -562,31 +588,38 @@ DestroyCall(e, fl) ==
   /\ dpc[e] = "idle" /\ cpc[e] # "none" /\ MayCall
   /\ dpc' = [dpc EXCEPT ![e] = IF e \in listed THEN "start" ELSE "notfound"]
   /\ dfl' = [dfl EXCEPT ![e] = fl] /\ dforced' = [dforced EXCEPT ![e] = FALSE] /\ dkeepEff' = [dkeepEff EXCEPT ![e] = ("keep" \in fl)]
-  /\ dret' = [dret EXCEPT ![e] = "none"]
+  /\ dret' = [dret EXCEPT ![e] = "none"] /\ dplan' = [dplan EXCEPT ![e] = None]
   /\ ncalls' = ncalls + 1
   /\ UNCHANGED <<cvars, dkeep, xvars, kpc, evars, avars, tdvars, tvars, hvars>>
 
-\* [Hook env.lock.release STOP_ACTIVITY | RESET] the transitions DestroyEnvironment tries first (no force)
+\* no line: DestroyEnvironment reads the state and decides what to try first (no force): STOP_ACTIVITY when
+\* allowed in RUNNING, RESET from CONFIGURED; it then waits for the environment lock
+DPlan(e) ==
+  /\ dpc[e] = "start" /\ dplan[e] = None /\ ~("force" \in dfl[e]) /\ ~dforced[e]
+  /\ \/ ("allow" \in dfl[e]) /\ est[e] = "RUNNING" /\ dplan' = [dplan EXCEPT ![e] = "STOP_ACTIVITY"]
+     \/ ~(("allow" \in dfl[e]) /\ est[e] = "RUNNING") /\ est[e] = "CONFIGURED" /\ dplan' = [dplan EXCEPT ![e] = "RESET"]
+  /\ UNCHANGED <<cvars, dpc, dfl, dret, dkeep, dforced, dkeepEff, xvars, kpc, evars, avars, tdvars, tvars, hvars, ncalls>>
+
+\* [Hook env.lock.release STOP_ACTIVITY | RESET] the planned transition, under the lock, on the state found then
 DPre(e, op, ok) ==
-  /\ dpc[e] = "start" /\ ~("force" \in dfl[e]) /\ ~dforced[e]
-  /\ \/ op = "STOP_ACTIVITY" /\ ("allow" \in dfl[e]) /\ est[e] = "RUNNING"
-     \/ op = "RESET" /\ est[e] = "CONFIGURED"
+  /\ dpc[e] = "start" /\ dplan[e] = op
   /\ DoTransition(e, op, ok)
+  /\ dplan' = [dplan EXCEPT ![e] = None]
   /\ dforced' = [dforced EXCEPT ![e] = ~ok]
   /\ dkeepEff' = [dkeepEff EXCEPT ![e] = @ /\ ok]
   /\ UNCHANGED <<cvars, dpc, dfl, dret, dkeep, xvars, kpc, listed, elock, avars, tdvars, tenv, trole, owner, inRoster, running, alive,
-                 triggered, killSent, kq, ksent, ksel, kst, lastOwner, killedOwned, conflictIn, hooksEarly, ncalls>>
+                 triggered, killSent, kq, ksent, ksel, kpre, kact, kst, lastOwner, killedOwned, conflictIn, hooksEarly, crashed, ncalls>>
 
 \* no line: the decision to tear down (with force when the state does not allow a plain destroy)
 DGoTd(e) ==
-  /\ dpc[e] = "start"
+  /\ dpc[e] = "start" /\ dplan[e] = None
   /\ ("force" \in dfl[e]) \/ dforced[e] \/ ~(("allow" \in dfl[e]) /\ est[e] = "RUNNING")
   /\ ("force" \in dfl[e]) \/ dforced[e] \/ est[e] # "CONFIGURED"
   /\ dpc' = [dpc EXCEPT ![e] = "td"]
   /\ LET byState == ~("force" \in dfl[e]) /\ ~dforced[e] /\ est[e] \notin {"CONFIGURED", "DEPLOYED", "STANDBY"} IN
        /\ dforced' = [dforced EXCEPT ![e] = @ \/ byState]
        /\ dkeepEff' = [dkeepEff EXCEPT ![e] = @ /\ ~byState]
-  /\ UNCHANGED <<cvars, dfl, dret, dkeep, xvars, kpc, evars, avars, tdvars, tvars, hvars, ncalls>>
+  /\ UNCHANGED <<cvars, dfl, dret, dkeep, dplan, xvars, kpc, evars, avars, tdvars, tvars, hvars, ncalls>>
 
 \* the environment disappeared before TeardownEnvironment found it
 DTdNotFound(e) ==
@@ -594,17 +627,17 @@ DTdNotFound(e) ==
   /\ IF ~(("force" \in dfl[e]) \/ dforced[e])
        THEN dforced' = [dforced EXCEPT ![e] = TRUE] /\ UNCHANGED dpc
        ELSE dpc' = [dpc EXCEPT ![e] = "fail"] /\ UNCHANGED dforced
-  /\ UNCHANGED <<cvars, dfl, dret, dkeep, dkeepEff, xvars, kpc, evars, avars, tdvars, tvars, hvars, ncalls>>
+  /\ UNCHANGED <<cvars, dfl, dret, dkeep, dkeepEff, dplan, xvars, kpc, evars, avars, tdvars, tvars, hvars, ncalls>>
 
 \* [ApiReply destroy]
 DReply(e) ==
-  /\ \/ dpc[e] \in {"notfound", "fail"} /\ dret' = [dret EXCEPT ![e] = "err"] /\ UNCHANGED <<dkeep, kq, ksent, ksel, kst>>
-     \/ dpc[e] = "okreply" /\ dret' = [dret EXCEPT ![e] = "ok"] /\ dkeep' = [dkeep EXCEPT ![e] = TRUE] /\ UNCHANGED <<kq, ksent, ksel, kst>>
+  /\ \/ dpc[e] \in {"notfound", "fail"} /\ dret' = [dret EXCEPT ![e] = "err"] /\ UNCHANGED <<dkeep, kq, ksent, ksel, kpre, kact, kst>>
+     \/ dpc[e] = "okreply" /\ dret' = [dret EXCEPT ![e] = "ok"] /\ dkeep' = [dkeep EXCEPT ![e] = TRUE] /\ UNCHANGED <<kq, ksent, ksel, kpre, kact, kst>>
      \/ /\ dpc[e] = "kill" /\ KDone(<<e, "d">>) /\ KReset(<<e, "d">>)
         /\ EnvTasks(e) # {} => KAcked(<<e, "d">>)
         /\ dret' = [dret EXCEPT ![e] = "ok"] /\ UNCHANGED dkeep
   /\ dpc' = [dpc EXCEPT ![e] = "idle"]
-  /\ UNCHANGED <<cvars, dfl, dforced, dkeepEff, xvars, kpc, evars, avars, tdvars, tvarsNoK, hvars, ncalls>>
+  /\ UNCHANGED <<cvars, dfl, dforced, dkeepEff, dplan, xvars, kpc, evars, avars, tdvars, tvarsNoK, hvars, ncalls>>
 
 (* ============================ ControlEnvironment ========================= *)
 \* [Api control]
@@ -621,7 +654,7 @@ XTrans(e, ok) ==
   /\ DoTransition(e, xop[e], ok)
   /\ xpc' = [xpc EXCEPT ![e] = IF ok THEN "reply" ELSE "goerr"]
   /\ UNCHANGED <<cvars, dvars, xop, kpc, listed, elock, avars, tdvars, tenv, trole, owner, inRoster, running, alive,
-                 triggered, killSent, kq, ksent, ksel, kst, lastOwner, killedOwned, conflictIn, hooksEarly, ncalls>>
+                 triggered, killSent, kq, ksent, ksel, kpre, kact, kst, lastOwner, killedOwned, conflictIn, hooksEarly, crashed, ncalls>>
 
 \* [Hook env.lock.release GO_ERROR] after a failed transition
 XGoError(e, ok) ==
@@ -629,7 +662,7 @@ XGoError(e, ok) ==
   /\ DoTransition(e, "GO_ERROR", ok)
   /\ xpc' = [xpc EXCEPT ![e] = IF ok THEN "reply" ELSE "force"]
   /\ UNCHANGED <<cvars, dvars, xop, kpc, listed, elock, avars, tdvars, tenv, trole, owner, inRoster, running, alive,
-                 triggered, killSent, kq, ksent, ksel, kst, lastOwner, killedOwned, conflictIn, hooksEarly, ncalls>>
+                 triggered, killSent, kq, ksent, ksel, kpre, kact, kst, lastOwner, killedOwned, conflictIn, hooksEarly, crashed, ncalls>>
 
 \* [Hook api.force.error] Sm.SetState("ERROR") outside the lock
 XForce(e) ==
@@ -662,7 +695,7 @@ CleanupReply ==
 \* KillTasks call is waiting for (SafeAcks.ExpectsAck). k identifies the call: <<"api","api">> CleanupTasks,
 \* <<e,"c">> Cleanup at the start of CreateEnvironment, <<e,"ck">> KillTasks of its failure tail,
 \* <<e,"d">> doCleanupTasks of DestroyEnvironment (Cleanup() when the environment has no task).
-ExpectsAck(t) == \E k \in Killers : k[2] \in {"ck", "d"} /\ (t \in kq[k] \/ (t \in ksent[k] /\ alive[t]))
+ExpectsAck(t) == \E k \in Killers : k[2] \in {"ck", "d"} /\ (t \in kq[k] \/ t \in kpre[k] \/ (t \in ksent[k] /\ alive[t]))
 KillerPhase(k) ==
   CASE k[2] = "api" -> kpc = "run"
     [] k[2] = "c" -> cpc[k[1]] = "snap"
@@ -680,18 +713,27 @@ KillBegin(k) ==
   /\ kst' = [kst EXCEPT ![k] = "run"]
   /\ ksel' = [ksel EXCEPT ![k] = {t \in TaskIds : /\ inRoster[t] /\ ~Locked(t) /\ KillerScope(k, t)
                                                    /\ (Code_ClaimNotAtomic \/ \A e \in Envs : t \notin claimed[e])}]
-  /\ UNCHANGED <<cvars, dvars, xvars, kpc, evars, avars, tdvars, tvarsNoK, kq, ksent, hvars, ncalls>>
+  /\ UNCHANGED <<cvars, dvars, xvars, kpc, evars, avars, tdvars, tvarsNoK, kq, ksent, kpre, kact, hvars, ncalls>>
 
-\* [Hook task.kill.select] the task leaves the roster; a KILL is due when its status is ACTIVE (act; the core
-\* may not have processed TASK_RUNNING yet)
+\* [Hook task.kill.select] one task of the filtered list, with its status (act: ACTIVE; the core may not have
+\* processed TASK_RUNNING yet)
 KillSelect(k, t, act) ==
   /\ kst[k] = "run" /\ t \in ksel[k]
   /\ act => running[t]
   /\ ksel' = [ksel EXCEPT ![k] = @ \ {t}]
-  /\ inRoster' = [inRoster EXCEPT ![t] = FALSE]
-  /\ kq' = IF act \/ ~Code_InactiveDroppedUnkilled THEN [kq EXCEPT ![k] = @ \cup {t}] ELSE kq
+  /\ kpre' = [kpre EXCEPT ![k] = @ \cup {t}]
+  /\ kact' = IF act THEN [kact EXCEPT ![k] = @ \cup {t}] ELSE kact
+  /\ UNCHANGED <<cvars, dvars, xvars, kpc, evars, avars, tdvars, tvarsNoK, kq, ksent, kst, hvars, ncalls>>
+
+\* no line: doKillTasks takes the list out of the roster; a KILL is due for the ACTIVE ones
+KillRemove(k) ==
+  /\ kst[k] = "run" /\ ksel[k] = {}
+  /\ kst' = [kst EXCEPT ![k] = "removed"]
+  /\ inRoster' = [t \in TaskIds |-> inRoster[t] /\ t \notin kpre[k]]
+  /\ kq' = [kq EXCEPT ![k] = IF Code_InactiveDroppedUnkilled THEN kact[k] ELSE kpre[k]]
+  /\ kpre' = [kpre EXCEPT ![k] = {}] /\ kact' = [kact EXCEPT ![k] = {}]
   /\ UNCHANGED <<cvars, dvars, xvars, kpc, evars, avars, tdvars, tenv, trole, owner, running, standby, alive, triggered, killSent,
-                 ksent, kst, hvars, ncalls>>
+                 ksent, ksel, hvars, ncalls>>
 
 \* [Hook task.kill.send] KILL call to Mesos
 KillSend(k, t) ==
@@ -701,7 +743,7 @@ KillSend(k, t) ==
   /\ killSent' = [killSent EXCEPT ![t] = TRUE]
   /\ killedOwned' = (killedOwned \/ Locked(t))
   /\ UNCHANGED <<cvars, dvars, xvars, kpc, evars, avars, tdvars, tenv, trole, owner, inRoster, running, standby, alive, triggered,
-                 ksel, kst, lastOwner, cmdForeign, conflictIn, hooksEarly, ncalls>>
+                 ksel, kpre, kact, kst, lastOwner, cmdForeign, conflictIn, hooksEarly, crashed, ncalls>>
 
 \* [MUpdate terminal state] the task is gone: killed (Mesos acknowledges the KILL), a triggered hook task
 \* finished, a scripted launch failure, or a fault
@@ -712,7 +754,7 @@ TaskGone(t) ==
      \/ script[tenv[t]] = "launchfail" /\ trole[t] = FailRole(tenv[t]) /\ inRoster[t]
      \/ trole[t] \in FaultRoles /\ inRoster[t]
   /\ alive' = [alive EXCEPT ![t] = FALSE]
-  /\ UNCHANGED <<cvars, dvars, xvars, kpc, evars, avars, tdvars, tenv, trole, owner, inRoster, running, standby, triggered, killSent, kq, ksent, ksel, kst,
+  /\ UNCHANGED <<cvars, dvars, xvars, kpc, evars, avars, tdvars, tenv, trole, owner, inRoster, running, standby, triggered, killSent, kq, ksent, ksel, kpre, kact, kst,
                  hvars, ncalls>>
 
 (* ------------------------------------------------------------------------ *)
@@ -728,7 +770,8 @@ Assign(R, F) == IF R = {} \/ F = {} THEN {}
 FreeIds == {t \in TaskIds : tenv[t] = None}
 OneOf(S, A(_)) == S # {} /\ A(Pick(S))
 
-Next ==
+Steps ==
+  \/ \E e \in Envs : AcqCrash(e)
   \/ \E e \in Envs :
        \/ \E c \in WfChoices, D \in DetChoices, s \in Scripts : CreateCall(e, c[1], c[2], c[3], D, s)
        \/ CSnap(e) \/ CRefuse(e) \/ CRegister(e) \/ CDeployLock(e)
@@ -741,21 +784,23 @@ Next ==
        \/ OneOf({t \in relq[e] : owner[t] \in {e, None}}, LAMBDA t : Unlock(e, t))
        \/ AcqRetry(e)
        \/ \E ok \in BOOLEAN : CDeployEnd(e, ok) \/ CConfigure(e, ok) \/ CTailGoError(e, ok) \/ XTrans(e, ok) \/ XGoError(e, ok)
-       \/ CReplyOk(e) \/ CReplyErr(e)
+       \/ CReplyOk(e) \/ CReplyErr(e) \/ CReplyGone(e)
        \/ \E who \in {"c", "d"} : TdLock(e, who)
        \/ TdRefuse(e) \/ TdLeft(e) \/ TdReleased1(e) \/ TdRelError(e) \/ TdCancel(e) \/ TdReleased2(e) \/ TdDone(e) \/ TdDelete(e)
        \/ \E T \in SUBSET TasksOfRoles(e, HookTaskRoles(e)) : TdHooks(e, T)
        \/ \E fl \in DestroyFlags : DestroyCall(e, fl)
        \/ \E op \in {"STOP_ACTIVITY", "RESET"}, ok \in BOOLEAN : DPre(e, op, ok)
-       \/ DGoTd(e) \/ DTdNotFound(e) \/ DReply(e)
+       \/ DPlan(e) \/ DGoTd(e) \/ DTdNotFound(e) \/ DReply(e)
        \/ \E op \in Ops : ControlCall(e, op)
        \/ XForce(e) \/ XReply(e)
   \/ CleanupCall \/ CleanupReply
   \/ \E t \in TaskIds : TaskRunning(t) \/ TaskGone(t)
   \/ \E k \in Killers :
-       \/ KillBegin(k)
+       \/ KillBegin(k) \/ KillRemove(k)
        \/ OneOf(ksel[k], LAMBDA t : \E act \in BOOLEAN : KillSelect(k, t, act))
        \/ OneOf(kq[k], LAMBDA t : KillSend(k, t))
+
+Next == ~crashed /\ Steps
 
 Spec == Init /\ [][Next]_vars
 
@@ -780,6 +825,7 @@ ForeignUntouched == ~killedOwned /\ ~cmdForeign
 \* a create that needs a held detector is refused; the refusal changes nothing of the holder (CRefuse leaves
 \* evars/avars/tdvars/tvars unchanged by construction)
 ConflictFailsCleanly == ~conflictIn
+NoCrash == ~crashed
 
 (* ---- C06 ---- *)
 Post(e) ==
@@ -787,12 +833,14 @@ Post(e) ==
   /\ \A t \in TaskIds : owner[t] # e
   \* asked to terminate (or selected for a KILL by a call that is still in progress)
   \* (a task another environment reused in the meantime is that environment's business: lastOwner)
-  /\ dkeep[e] \/ dpc[e] = "okreply"
+  \* (judged when no destroy of e is in progress any more: that call answers for the kills)
+  /\ dkeep[e] \/ dpc[e] # "idle"
        \/ \A t \in TaskIds : (lastOwner[t] = e /\ alive[t] /\ owner[t] = None /\ \A e2 \in Envs : t \notin claimed[e2])
                                 => (killSent[t] \/ t \in AllKq \/ t \in AllKsel)
   \* what it launched and is still alive without a KILL is in the roster (unowned: it falls to the next cleanup,
   \* or reused by another environment)
-  /\ \A t \in TaskIds : (tenv[t] = e /\ alive[t] /\ ~killSent[t] /\ t \notin AllKq /\ t \notin AllKsel) => inRoster[t]
+  /\ \A t \in TaskIds : (tenv[t] = e /\ alive[t] /\ ~killSent[t] /\ t \notin AllKq /\ t \notin AllKsel /\ ~(apc[e] = "failing" /\ t \in cur[e]))
+                          => inRoster[t]
   /\ ~pend[e]
 PostOnReturn == \A e \in Envs : (dret[e] = "ok" \/ cret[e] = "err") => Post(e)
 \* a destroy that cannot be honoured returns an error (= PostOnReturn restricted to destroy)
